@@ -238,8 +238,10 @@ DoGPopEmpty    == \E g \in Getters : GPopEmpty(g)
 DoGDeleteOk    == \E g \in Getters : GDeleteOk(g)
 DoGDeleteFail  == \E g \in Getters : GDeleteFail(g)
 DoRestart      == \E R \in Readable(disk) : Restart(R)
-DoWSaveCrash   == \E w \in WIds : \E R \in Readable(disk \cup {workers[w].val}) : WSaveCrash(w, R)
-DoGDeleteCrash == \E g \in Getters : \E R \in Readable(disk \ {getters[g].val}) : GDeleteCrash(g, R)
+WSaveCrashAny(w)   == \E R \in Readable(disk \cup {workers[w].val}) : WSaveCrash(w, R)
+GDeleteCrashAny(g) == \E R \in Readable(disk \ {getters[g].val}) : GDeleteCrash(g, R)
+DoWSaveCrash   == \E w \in WIds : WSaveCrashAny(w)
+DoGDeleteCrash == \E g \in Getters : GDeleteCrashAny(g)
 
 Next ==
     \/ DoWTop \/ DoWGenerate \/ DoWGenerateNil \/ DoWSaveOk \/ DoWSaveFail
